@@ -669,6 +669,55 @@ func runC18(r *core.Run) {
 			return checkStops(fmt.Sprintf("%s.Reader on the ~9 KiB corpus file", format), readerStop(format, data), false, errLastFormat(format))
 		})
 
+	// Long runs of items of ONE kind, stopped at EVERY position: a reader that counts something across items
+	// (consecutive malformed lines, records since the last header, lines since the last flush) and acts
+	// when the count reaches a round number is only wrong at that one stop position.
+	runLen := core.Pick(r, 1100, 4200)
+	r.Bound("long-runs-every-position", fmt.Sprintf("%d items of one kind per input (good records of every format, SAM header lines, SAM malformed lines that each yield an error item), EVERY stop position 1..%d, both call forms", runLen, runLen))
+	core.Clause(r, "long-runs-every-position", core.Opts{Rule: "inputs that make a reader yield a long run of items of the same kind (records / SAM headers / SAM error items), stopped at every position of the run in both call forms; exactly t callbacks, no panic, prefix of the uninterrupted run; non-trivial = all"},
+		func(emit func(c18Kmer) bool) {
+			for _, k := range []string{"fasta:records", "fastq:records", "bed:records", "newick:records", "sam:records", "samh:records", "samh:headers", "sam:malformed", "samh:malformed", "samh:malformed-then-good"} {
+				for chunk := 0; chunk < 16; chunk++ { // the stop positions t with t mod 16 == chunk: 16 cases share one input
+					emit(c18Kmer{core.S(fmt.Sprint(k, ":", chunk)), runLen})
+				}
+			}
+		},
+		func(c c18Kmer) core.Outcome {
+			parts := strings.Split(string(c.Seq), ":")
+			format, kind := parts[0], parts[1]
+			var chunk int
+			fmt.Sscan(parts[2], &chunk)
+			var stops []int
+			for t := 1; t <= c.K+1; t++ {
+				if t%16 == chunk {
+					stops = append(stops, t)
+				}
+			}
+			var sb bytes.Buffer
+			for i := 0; i < c.K; i++ {
+				switch {
+				case kind == "headers":
+					fmt.Fprintf(&sb, "@CO\tline %d\n", i)
+				case strings.HasPrefix(kind, "malformed"):
+					fmt.Fprintf(&sb, "r%d\tnot-a-number\tchr\n", i)
+				case format == "fasta":
+					fmt.Fprintf(&sb, ">r%d\nAC\n", i)
+				case format == "fastq":
+					fmt.Fprintf(&sb, "@r%d\nAC\n+\nII\n", i)
+				case format == "bed":
+					fmt.Fprintf(&sb, "c\t%d\t%d\n", i, i+1)
+				case format == "newick":
+					fmt.Fprintf(&sb, "(a,b)n%d;\n", i)
+				default:
+					fmt.Fprintf(&sb, "r%d\t0\tc\t1\t9\t2M\t*\t0\t0\tAC\tII\n", i)
+				}
+			}
+			if kind == "malformed-then-good" {
+				sb.WriteString("g\t0\tc\t1\t9\t2M\t*\t0\t0\tAC\tII\n")
+			}
+			return checkStopsAt(fmt.Sprintf("%s reader on %d %s", format, c.K, kind), readerStop(format, sb.Bytes()), stops)
+		})
+
 	words := enum.AllStrings("ab", 3)[1:]
 	core.Clause(r, "trie-foreach", core.Opts{Rule: "ForEach on every reachable trie over {a,b}^<=3 (the 676 states of C15, rebuilt here from every subset of the 14 words and deduplicated by JSON form) x every stop position; ForEach takes a callback, so only the direct form applies; items must be distinct members of the full result; non-trivial = at least 2 members"},
 		func(emit func(c18Trie) bool) {
